@@ -340,6 +340,45 @@ theorem readAlignedRef_encode {t t' : ElemTy} {xs : List Bytes} (v : Vec t' t'.w
     · simp [bind, Except.bind, ha]
   · simp [h, bind, Except.bind]
 
+/-! ### the base offset as a linear form in the query length -/
+
+/-- Constant part and query-length multiplicity of a `base_offset` sum. -/
+def baseCoeffs : List BaseTerm → Nat × Nat
+  | [] => (0, 0)
+  | .header :: r => ((baseCoeffs r).1 + 48, (baseCoeffs r).2)
+  | .query :: r => ((baseCoeffs r).1, (baseCoeffs r).2 + 1)
+  | .const n :: r => ((baseCoeffs r).1 + n, (baseCoeffs r).2)
+
+theorem baseOffset_linear (terms : List BaseTerm) (q : Nat) :
+    baseOffset terms q = (baseCoeffs terms).1 + (baseCoeffs terms).2 * q := by
+  induction terms with
+  | nil => simp [baseOffset, baseCoeffs]
+  | cons a r ih =>
+    unfold baseOffset at ih ⊢
+    cases a <;> simp only [List.map_cons, List.sum_cons, baseCoeffs, ih, Nat.add_mul, Nat.one_mul] <;> omega
+
+/-- If the sum is `≡ 48 + q (mod 16)` coefficient-wise, it is so for every query length. -/
+theorem baseOffset_congr (terms : List BaseTerm) (hc : (baseCoeffs terms).1 % 16 = 0)
+    (hk : (baseCoeffs terms).2 % 16 = 1) (q : Nat) : baseOffset terms q % 16 = (48 + q) % 16 := by
+  rw [baseOffset_linear, Nat.add_mod, Nat.mul_mod, hc, hk]
+  simp [Nat.add_mod]
+
+theorem ElemTy.Valid.align_dvd {t : ElemTy} (h : t.Valid) : t.align ∣ 16 := by
+  have ⟨hc, _⟩ := h.bounds
+  unfold ElemTy.align ElemTy.width
+  split
+  · exact ⟨8, by decide⟩
+  · refine ⟨2 ^ (4 - t.code), ?_⟩
+    rw [← Nat.pow_add, show t.code + (4 - t.code) = 4 by omega]
+
+/-- A payload aligned relative to `base` is aligned relative to any offset congruent to `base` mod 16. -/
+theorem aligned_of_congr {t : ElemTy} (hv : t.Valid) (base pos off : Nat) (hb : base % 16 = pos % 16)
+    (h : (base + off) % t.align = 0) : (pos + off) % t.align = 0 := by
+  have hd := hv.align_dvd
+  have e1 : base % t.align = pos % t.align := by
+    rw [← Nat.mod_mod_of_dvd base hd, ← Nat.mod_mod_of_dvd pos hd, hb]
+  rw [Nat.add_mod, ← e1, ← Nat.add_mod]; exact h
+
 /-! ### first bytes: the marker dispatch and the empty generic array -/
 
 theorem typedHeader_ne_marker {t : ElemTy} (hv : t.Valid) : typedHeader t ≠ alignedMarker := by
